@@ -673,3 +673,21 @@ func (e *Engine) parseGhostType(s string) (types.Type, error) {
 	}
 	return nil, fmt.Errorf("unsupported ghost type %q", s)
 }
+
+// isRepoPtrType: *T with T a named struct type declared in the repository.
+func (e *Engine) isRepoPtrType(t types.Type) bool {
+	p, ok := t.(*types.Pointer)
+	if !ok {
+		return false
+	}
+	n, ok := p.Elem().(*types.Named)
+	if !ok || n.Obj().Pkg() == nil {
+		return false
+	}
+	for _, rp := range repoPkgs {
+		if n.Obj().Pkg().Path() == rp {
+			return true
+		}
+	}
+	return false
+}
